@@ -551,9 +551,10 @@ impl<'a> TransactionRebase<'a> {
                             .iter()
                             .any(|field| fields_modified.contains(&(*field as u32)))
                             && updated_fragments.iter().any(|frag| {
+                                // (an index without a fragment bitmap claims no fragment)
                                 idx.fragment_bitmap
                                     .as_ref()
-                                    .is_none_or(|bitmap| bitmap.contains(frag.id as u32))
+                                    .is_some_and(|bitmap| bitmap.contains(frag.id as u32))
                             })
                     });
                     if indexed_values_changed {
